@@ -190,7 +190,7 @@ def coq_eval(work, name, preamble, ctype, literals, agree, shard=250, timeout=90
         path = os.path.join(work, "%s_show.v" % name)
         with open(path, "w") as f:
             f.write(preamble + "\n")
-            for i in bad[:8]:
+            for i in sorted(bad, key=lambda k: len(literals[k]))[:8]:
                 f.write("Eval vm_compute in (%d%%nat, %s (%s)).\n" % (i, show, literals[i]))
         _, rc, out = run(path)
         out = "\n".join(l for l in out.splitlines() if NOISE not in l)
